@@ -4,7 +4,7 @@ streams built by an independent encoder from symbolic scripts.  E2 half (props/C
 inputs of n bytes is decoded back to the input by the independent reference decoders (LZ4: end-of-block rules enforced)."""
 from props import C10_e1 as _e1, C10_e2 as _e2
 FILES = ['src/compression/snappy.c', 'src/compression/lz4.c']
-BUDGET = {'quick': 1500, 'thorough': 3600}
+BUDGET = {'quick': 840, 'thorough': 3600}
 
 
 def obligations(tier):
